@@ -286,6 +286,12 @@ def copy_oracle(w: mut.World, step, s0: Snap, s1: Snap):
         elif before is True or before == 0:
             if pos[0] != 0:
                 return "copy: before=True/0 must prepend", info
+        elif isinstance(before, int):
+            # an index is resolved against the child list as it was, the way list.insert() does (negative: from the end; clamped)
+            n0 = len(pch) - len(tops)
+            want = max(0, n0 + before) if before < 0 else min(before, n0)
+            if pos[0] != want:
+                return f"copy: before={before}: the new nodes start at index {pos[0]}, list.insert() puts them at {want}", info
     pairs = []
     errs = []
     d47 = []
